@@ -51,6 +51,9 @@ EXTRA_SNIPPETS = [
     ("in_member_raises", "    class W:\n        def __eq__(self, o):\n            if not isinstance(o, W):\n                raise TypeError('no')\n            return True\n        def __repr__(self):\n            return 'W()'\n    assert 1 in snapshot([1, W()])"),
     ("in_member_raises_first", "    class W:\n        def __eq__(self, o):\n            if not isinstance(o, W):\n                raise TypeError('no')\n            return True\n        def __repr__(self):\n            return 'W()'\n    assert W() in snapshot([W(), 1])"),
     ("in_tuple_member_raises", "    class W:\n        def __eq__(self, o):\n            if not isinstance(o, W):\n                raise TypeError('no')\n            return True\n        def __hash__(self):\n            return 1\n        def __repr__(self):\n            return 'W()'\n    assert 1 in snapshot((1, W()))"),
+    # ... or raises something else than TypeError (the usual sloppy `return self.x == other.x`, numpy's "truth value is ambiguous")
+    ("in_member_attrerror", "    class Pt:\n        def __init__(self, x):\n            self.x = x\n        def __eq__(self, o):\n            return self.x == o.x\n        def __hash__(self):\n            return 1\n        def __repr__(self):\n            return f'Pt({self.x})'\n    assert Pt(0) in snapshot([Pt(0), 'origin', Pt(1)])"),
+    ("in_member_valueerror", "    class Arr:\n        def __eq__(self, o):\n            if not isinstance(o, Arr):\n                raise ValueError('the truth value is ambiguous')\n            return True\n        def __hash__(self):\n            return 1\n        def __repr__(self):\n            return 'Arr()'\n    assert 2 in snapshot((2, Arr(), 3))"),
     # [key] on a snapshot whose value is not written as a dict display: the test fails, the session must still finish
     ("getitem_nondisplay", "    try:\n        assert snapshot(dict(a=1))['a'] == 1\n    except AssertionError:\n        pass"),
     ("getitem_list", "    try:\n        assert snapshot([1, 2])[0] == 1\n    except Exception:\n        pass"),
@@ -216,6 +219,12 @@ def run(ctx: Ctx):
             ctx.report(f"C18 oracle: a session with --doctest-modules (flags {fl}) over a module whose doctests use snapshot() ended with an internal error / exit status {o['rc']}",
                        {"kind": "doctest", "flags": fl, "output": o["tail"]})
     ctx.coverage["oracle"]["doctest_sessions"] = len(DOCTEST_FLAGS)
+    o = tmap(run_paths_session, [0])[0]
+    ctx.count(("paths-session",), True)
+    if not o.get("infra") and (o["internal"] or o["rc1"] not in (0, 1) or o["bad"] or o["rc2"] != 0):
+        ctx.report("C18 oracle: session over files whose co_filename is not their real path (sys.path entry with '..', symlinked file, symlinked directory) with new code that needs an import: "
+                   + ("INTERNALERROR / traceback" if o["internal"] else f"exit status {o['rc1']} then {o['rc2']}; {o['bad']}"), {"kind": "paths", "output": o["tail"]})
+    ctx.coverage["oracle"]["path_sessions"] = 1
     # real sessions
     m = 64 if not ctx.thorough else 800
     items = []
@@ -255,6 +264,46 @@ def run(ctx: Ctx):
     NESTED = ("from inline_snapshot import snapshot\n\n\ndef test_n1():\n    assert [0, 7] == snapshot([snapshot(), 0])\n\n\n"
               "def test_n2():\n    assert {'a': [1, 2], 'b': 3} == snapshot({'a': [snapshot(5), 9, 2], 'c': snapshot(1)})\n")
     twins.check(ctx, "C18", [NESTED] + [s_ for s_, _ in items[:2 if not ctx.thorough else 12]])
+
+
+# files whose co_filename is not their real path (a helper found through a sys.path entry with "..", a symlinked test file, a symlinked directory) and whose new code
+# needs an import line (HasRepr, external): the session finishes, the file is rewritten once and the next session passes
+PATHS_CONFTEST = "import os\nimport sys\n\nsys.path.insert(0, os.path.join(os.path.dirname(__file__), 'tests', '..', 'lib'))\n"
+PATHS_HELPER = ("from inline_snapshot import snapshot, outsource\n\n\nclass NoCode:\n    def __repr__(self):\n        return '<nocode>'\n\n    def __eq__(self, other):\n"
+                "        return True if isinstance(other, NoCode) else NotImplemented\n\n\ndef check():\n    assert NoCode() == snapshot()\n    assert outsource('x' * 30) == snapshot()\n    assert 3 == snapshot(2)\n")
+PATHS_TEST = "from helper import check\n\n\ndef test_helper():\n    check()\n"
+PATHS_REAL = PATHS_HELPER.replace("def check():", "def test_real():")
+
+
+def run_paths_session(_):
+    import os
+    d = driver.scratch_dir()
+    try:
+        driver.write_project(d, {"conftest.py": PATHS_CONFTEST, "lib/helper.py": PATHS_HELPER, "tests/test_h.py": PATHS_TEST, "real/test_real.py": PATHS_REAL,
+                                 "realdir/test_in_dir.py": PATHS_REAL.replace("test_real", "test_in_dir")})
+        os.symlink(d / "real" / "test_real.py", d / "tests" / "test_link.py")
+        os.symlink(d / "realdir", d / "tests" / "linkdir", target_is_directory=True)
+        targets = ["tests/test_h.py", "tests/test_link.py", "tests/linkdir/test_in_dir.py"]
+        r1 = driver.run_pytest(d, ["--inline-snapshot=create,fix"] + targets)
+        r2 = driver.run_pytest(d, targets)
+        out1 = r1["stdout"] + r1["stderr"]
+        bad = []
+        for f in ("lib/helper.py", "real/test_real.py", "realdir/test_in_dir.py"):
+            txt = (d / f).read_text()
+            try:
+                compile(txt, f, "exec")
+            except SyntaxError as e:
+                bad.append(f"{f}: {e}")
+            if "snapshot()" in txt or "snapshot(2)" in txt:
+                bad.append(f"{f}: the approved changes were not written")
+            if txt.count("import external") + txt.count("import HasRepr") + txt.count("import HasRepr, external") + txt.count("import external, HasRepr") > 2:
+                bad.append(f"{f}: import lines were added more than once")
+        if not (d / "tests" / "test_link.py").is_symlink():
+            bad.append("the symlink was replaced by a file")
+        return {"rc1": r1["rc"], "rc2": r2["rc"], "internal": "INTERNALERROR" in out1 or "Traceback (most recent call last)" in r1["stderr"], "bad": bad,
+                "tail": out1[-1500:] + "\n---- second session\n" + (r2["stdout"] + r2["stderr"])[-800:], "infra": r1.get("infra_error") or r2.get("infra_error")}
+    finally:
+        shutil.rmtree(d, ignore_errors=True)
 
 
 DOCTEST_SRC = ("from inline_snapshot import snapshot\n\n\ndef double(x):\n    \"\"\"\n    >>> from inline_snapshot import snapshot\n    >>> assert double(2) == snapshot(4)\n"
@@ -305,6 +354,10 @@ def run_example(item):
 
 
 def replay(ctx: Ctx, data):
+    if isinstance(data.get("case"), dict) and data["case"].get("kind") == "paths":
+        o = run_paths_session(0)
+        print(o["tail"], o["bad"])
+        return not (o["internal"] or o["rc1"] not in (0, 1) or o["bad"] or o["rc2"] != 0)
     if isinstance(data.get("case"), dict) and data["case"].get("kind") == "doctest":
         o = run_doctest_session(data["case"]["flags"])
         print(o["tail"])
